@@ -30,7 +30,7 @@ CUSTOM_AST = {
     '--deep': [S.cx(S.compound('div'), ' ', S.compound(None, ps=[{'p': 'custom', 'name': '--hdr'}]))],
 }
 NS_CHOICES = [('omitted', None), ('none', None), ('empty', {}), ('map', {'x': 'urn:x'}),
-              ('default-xhtml', {'': trees.NS_XHTML})]
+              ('default-xhtml', {'': trees.NS_XHTML}), ('xml-map', {'p': 'urn:a', 'q': 'urn:b', '': 'urn:a'})]
 CFG = witness.Cfg(nth=True, nth_of=True, scope=True)
 FGCFG = FG.Cfg(scope=False, contains_alias=False)
 MEMO_POOL = (':default', 'form :default', ':indeterminate', ':has(> :default)', ':lang(en)', ':lang("")', ':dir(rtl)',
@@ -47,7 +47,20 @@ def quiet(fn, *a, **k):
         return fn(*a, **k)
 
 
+XML_NS = {'p': 'urn:a', 'q': 'urn:b', '': 'urn:a'}
+XML_POOL = ('p|a:not(:checked)', 'a:not(:link)', 'q|*:not(:disabled), b', '*|a:has(> p|b):not(:required)', '[p|k]:not(:checked)',
+            ':not(:enabled) > a', 'b, *|c:not(:any-link)', 'p|*:nth-child(odd):not(:optional)', 'p|a, :disabled', ':root', 'q|b:root')
+
+
 def gen_case(ch, tier):
+    if ch.p(0.1):
+        from props import c12
+        recipe = c12.gen_xml_recipe(ch, ch.pick(('xml-api', 'lxml-xml')))
+        doc = trees.materialise(recipe)
+        els = doc.all_elements()
+        return {'tree': recipe, 'sel': None, 'text': ch.pick(XML_POOL), 'targets': [-1 if ch.p(0.4) else ch.i(0, len(els) - 1)],
+                'args': {'ns': 'xml-map', 'flags': 'omitted', 'custom': 'omitted', 'positional': ch.p(0.5),
+                         'limits': [ch.pick((-1, 0, 1, 2))], 'perm': [ch.i(0, 50) for _ in range(4)]}}, doc
     if ch.p(0.25):
         recipe, _fl = htmldoc.gen_html_doc(ch, kinds=htmldoc.HTML_KINDS, depth=2, memo_rich=True)
     else:
@@ -72,7 +85,7 @@ def gen_case(ch, tier):
         sel = None
         text = ch.pick(MEMO_POOL) if ch.p(0.4) else S.render_list(FG.gen_list(ch, FGCFG, max_items=2))
     args = {
-        'ns': ch.pick(NS_CHOICES)[0],
+        'ns': ch.pick(NS_CHOICES[:5])[0],
         'flags': ch.pick(('omitted', 'zero', 'debug')),
         'custom': 'map' if use_custom else ch.pick(('omitted', 'none', 'map')),
         'positional': ch.p(0.5),
@@ -198,6 +211,25 @@ def check_target(case, doc, target, col=None):
         expl = [x for x in items if isinstance(x, bs4.Tag) and quiet(comp.match, x)]
     if ids(f_list) != ids(expl):
         bad('filter-iterable-differs', f'{len(f_list)} vs {len(expl)} of {len(items)} items')
+    # filter(iterable) over parentless nodes that belong to different trees (each item is its own question)
+    if a['perm'] and a['perm'][0] % 3 == 0:
+        others = []
+        for _ in range(2):
+            d2 = trees.materialise(case['tree'])
+            tops = [c for c in d2.top().contents if isinstance(c, bs4.Tag)] if isinstance(d2.top(), bs4.BeautifulSoup) else [d2.top()]
+            if tops:
+                others.append(tops[a['perm'][1] % len(tops)].extract())
+        others.append(bs4.BeautifulSoup('', 'html.parser').new_tag('p', attrs={'id': 'i1'}))
+        if a['perm'][2] % 2:
+            others.reverse()
+        try:
+            got = quiet(comp.filter, others)
+            want = [x for x in others if quiet(comp.match, x)]
+            if ids(got) != ids(want):
+                bad('filter-iterable-of-detached-roots-differs', f'{[others.index(x) for x in got]} vs per-item match '
+                    f'{[others.index(x) for x in want]} over {len(others)} parentless items')
+        except Exception as e:  # noqa: BLE001
+            bad('filter-iterable-raises-' + type(e).__name__, repr(e)[:200])
     # closest / match
     cl = quiet(comp.closest, target)
     mt = quiet(comp.match, target)
